@@ -68,7 +68,9 @@ NAMES = {
 UNDEFINED = {("Spin12", "U1"): {"x", "y", "iy", "sx", "sy", "isy"},
              ("Spin1", "Z3"): {"sx", "sy", "isy"}, ("Spin1", "U1"): {"sx", "sy", "isy"}}
 
-TOL_MPO = 1e-10      # * sum_t |amp_t| prod ||O||      (observed ~5e-15)
+TOL_MPO = 1e-10      # * sum_t |amp_t| prod ||O||      (observed ~5e-15; default opts_svd tol=1e-13 is a *relative* compression,
+                     #   so amplitudes spanning 1e-12..1e12 are judged relative to the dominant terms)
+TOL_MPO_EXACT = 1e-11  # same scale, when a non-truncating opts_svd ({} or tol=0) is passed: only SVD rounding remains
 TOL_VAL = 1e-11      # * S(bra) S(ket) prod ||O||, S = max(||psi||, prod of site-tensor norms)  (observed <= ~1e-14)
 TOL_PROB = 1e-10     # absolute, probabilities <= 1    (observed ~2e-15)
 TOL_ALG = 1e-13      # absolute, exact small matrices
@@ -76,27 +78,37 @@ TOL_ALG = 1e-13      # absolute, exact small matrices
 K_ZERO = "reject:generate_mpo:zero-onsite-product"
 K_CPLX = "exception:generate_mpo:complex-operator-real-amplitudes"
 K_LATEX_NONE = "exception:mpo_from_latex:parameters-default-None"
+K_M2_EMPTY_PAIRS = "exception:measure_2site:empty-pairs"
+K_M2_EMPTY_DICT = "exception:measure_2site:empty-operator-dict"
 
 
 def plan(tier):
     if tier == "thorough":
-        return {"cases": len(KINDS) * len(FAMS) * 48, "shards": 16, "budget_s": 1200}
-    return {"cases": len(KINDS) * len(FAMS) * 8, "shards": 8, "budget_s": 200}
+        return {"cases": len(KINDS) * len(FAMS) * 32, "shards": 16, "budget_s": 1200}
+    return {"cases": len(KINDS) * len(FAMS) * 6, "shards": 8, "budget_s": 200}
 
 
 def floors(tier):
-    k = 5 if tier == "thorough" else 1
-    return {"evaluations": 900 * k, "mpo_compared": 250 * k, "latex_compared": 80 * k, "m1_values": 150 * k,
-            "m2_values": 500 * k, "mn_values": 100 * k, "rdm_elements": 1000 * k, "sample_probs": 100 * k,
+    k = 4 if tier == "thorough" else 1
+    return {"evaluations": 700 * k, "mpo_compared": 150 * k, "latex_compared": 60 * k, "m1_values": 100 * k,
+            "m2_values": 300 * k, "mn_values": 60 * k, "rdm_elements": 1000 * k, "sample_probs": 60 * k,
             "algebra_relations": 300 * k, "terms_repeated_sites": 20 * k, "terms_descending": 20 * k,
             "m2_pairs_i_gt_j": 20 * k, "m2_pairs_i_eq_j": 20 * k, "m2_pairs_i_lt_j": 20 * k,
             "fermionic_cases": 200 * k, "bosonic_cases": 200 * k, "mpo_fmap_cases": 40 * k,
             "string_sensitive": 150 * k, "mpo_string_sensitive": 40 * k, "mpo_fmap_sensitive": 10 * k,
-            "mixed_charge_rejected": 3 * k, "bra_ne_ket_cases": 50 * k, "nonzero_references": 1500 * k,
+            "mixed_charge_rejected": 3 * k, "bra_ne_ket_cases": 50 * k, "nonzero_references": 900 * k,
             "mn_repeated_sites": 20 * k, "m2_dict_cases": 10 * k, "rdm_unordered_sites": 5 * k,
-            "m1_dict_cases": 40 * k, "m1_dict_unsorted": 20 * k, "m1_dict_descending_adjacent": 15 * k,
+            "m1_dict_cases": 25 * k, "m1_dict_unsorted": 20 * k, "m1_dict_descending_adjacent": 10 * k,
             "m1_dict_extra_keys": 5 * k, "m2_dict_unsorted": 10 * k, "m2_pairs_lists_unsorted": 15 * k,
-            "m2_pairs_lists_with_repeats": 5 * k, "rdm_factor_cases": 20 * k}
+            "m2_pairs_lists_with_repeats": 5 * k, "rdm_factor_cases": 20 * k,
+            # extreme scales / omitted optional arguments / falsy values
+            "mpo_amp_style:wide": 15 * k, "mpo_amp_style:zeros": 15 * k, "mpo_amp_style:tiny": 8 * k, "mpo_amp_style:huge": 8 * k,
+            "mpo_amp_style:tiny-imag": 8 * k, "mpo_nontruncating": 30 * k, "mpo_zero_amplitude_cases": 10 * k,
+            "mpo_all_optional_omitted": 20 * k, "terms_identity": 15 * k, "mpo_no_terms": 4 * k, "state_site_scaled": 50 * k,
+            "m1_sites_empty": 4 * k, "m1_site0_int": 4 * k, "mn_no_operators": 3 * k, "mn_sites_omitted_rejected": 1 * k,
+            "m2_empty_pairs": 3 * k, "m2_empty_dict": 2 * k, "sample_call:defaults": 6 * k, "sample_call:number=0": 3 * k,
+            "sample_configs_checked": 10 * k, "latex_params:zero": 8 * k, "latex_params:wide": 8 * k,
+            "latex_ctor:ctor-all": 4 * k, "latex_ctor:ctor-overridden": 4 * k}
 
 
 # ------------------------------------------------------------------ operator families
@@ -138,12 +150,14 @@ class Fam:
                 t = yastn.Tensor(config=self.cfg, s=(1, -1), dtype="complex128" if cplx else "float64")
                 t.set_block(Ds=(d, d), val=val)
                 self.named[name] = t
+        self.named["zero"] = 0 * self.named["I"]          # an operator equal to zero (blocks present, values 0)
         self.loc = {k: jw.local(v, self.space) for k, v in self.named.items()}
         self.opnorm = {k: max(1.0, float(np.linalg.norm(m, 2))) for k, (m, _) in self.loc.items()}
         self.names = list(self.named)
         self.charged = [k for k in self.names if self.loc[k][1] != self.zero]
-        self.neutral = [k for k in self.names if self.loc[k][1] == self.zero and k != "I"]
+        self.neutral = [k for k in self.names if self.loc[k][1] == self.zero and k not in ("I", "zero")]
         self.weighted = self.charged * 3 + self.neutral * (2 if self.charged else 3) + ["I"]
+        self.weighted_z = self.weighted * 2 + ["zero"]       # measurements: identity and zero operators are legal inputs
         self.cplx = {k for k, v in self.named.items() if v.yastn_dtype == "complex128"}
         self.zero_pairs = [(a, b) for a in self.names for b in self.names
                            if np.any(self.loc[a][0]) and np.any(self.loc[b][0]) and not np.any(self.loc[a][0] @ self.loc[b][0])]
@@ -286,6 +300,15 @@ def make_state(ctx, F, N, n, rng, allow_scale=True):
     if "scaled" in post and allow_scale:
         psi = rng.choice((0.5, -1.7, 0.3 + 0.8j, 2.0)) * psi
     vec = jw.mps_vector(psi, [F.space] * N)
+    if rng.random() < 0.12:
+        # one site tensor scaled by an extreme but legal factor: every measure_* is bilinear in the states, to_tensor linear;
+        # the dense truth is OUR scaling of the vector observed before (no reliance on to_tensor at the extreme scale)
+        c = rng.choice((1e20, 1e-20, -1e20, -1e-20, 1e20, 1e-20))
+        n0 = rng.randrange(N)
+        psi[n0] = c * psi[n0]
+        vec = c * vec
+        post += f":site{n0}x{c:g}"
+        ctx.count("state_site_scaled")
     return psi, vec, how + ":" + post
 
 
@@ -331,6 +354,8 @@ def count_flavour(ctx, F):
 # ------------------------------------------------------------------ Hterm generation
 
 def draw_term(F, N, rng, k=None):
+    if k is None and rng.random() < 0.04:
+        return [], []                               # Hterm without positions / operators: amplitude * identity
     k = k or rng.choice((1, 1, 2, 2, 2, 3, 3, 4, 4))
     style = rng.choice(("free", "free", "repeat", "desc"))
     pos = [rng.randrange(N) for _ in range(k)]
@@ -353,6 +378,8 @@ def draw_term_with_charge(F, N, rng, T, allow_zero=False):
     for _ in range(60):
         pos, names = draw_term(F, N, rng)
         if F.charge(names) != T:
+            if not names:
+                continue
             base = F.charge(names[:-1])
             cands = [nm for nm in F.names if G.add(F.sym, [base, F.loc[nm][1]]) == T]
             if not cands:
@@ -361,6 +388,31 @@ def draw_term_with_charge(F, N, rng, T, allow_zero=False):
         if allow_zero or not onsite_zero(F, pos, names):
             return pos, names
     return None
+
+
+AMP_STYLES = ("real",) * 7 + ("mixed",) * 7 + ("wide", "wide", "tiny", "huge", "zeros", "zeros", "tiny-imag")
+
+
+def make_amps(rng, style, n):
+    """Amplitudes of one generate_mpo call.  wide: 1e-12..1e12 in one call; tiny/huge: all ~1e-12 / ~1e12;
+    zeros: some (possibly all) exactly 0 / 0.0 / 0j; tiny-imag: complex with imaginary part ~1e-14 of the real part."""
+    if style in ("real", "mixed"):
+        return [make_amp(rng, style) for _ in range(n)]
+    out = []
+    for _ in range(n):
+        a = make_amp(rng, "mixed" if rng.random() < 0.3 else "real")
+        if style == "wide":
+            a = a * 10.0 ** rng.uniform(-12, 12)
+        elif style == "tiny":
+            a = a * 1e-12
+        elif style == "huge":
+            a = a * 1e12
+        elif style == "zeros" and rng.random() < 0.5:
+            a = rng.choice((0, 0.0, 0j, -0.0))
+        elif style == "tiny-imag":
+            a = complex(a.real if isinstance(a, complex) else a, rng.choice((1, -1)) * 1e-14 * abs(a))
+        out.append(a)
+    return out
 
 
 def make_amp(rng, style):
@@ -379,6 +431,8 @@ def case_mpo(ctx, F, rng, nprng):
     N = draw_N(rng, F.d, 1024 if thorough else 256, 7 if thorough else 6)
     nterms = rng.choice((1, 1, 2, 2, 3, 3, 4, 5, 6))
     mode = "plain"
+    if rng.random() < 0.025:
+        return case_mpo_no_terms(ctx, F, rng, N)
     if nterms > 1:
         r = rng.random()
         if r < 0.08 and F.charged:
@@ -390,10 +444,13 @@ def case_mpo(ctx, F, rng, nprng):
     for _ in range(200):
         pos, names = draw_term(F, N, rng)
         if mode == "zero-onsite":
-            a, b = rng.choice(F.zero_pairs)
             s = rng.randrange(N)
             j = rng.randint(0, len(pos))
-            pos, names = pos[:j] + [s, s] + pos[j:], names[:j] + [a, b] + names[j:]
+            if rng.random() < 0.3:                  # an operator that is itself zero
+                pos, names = pos[:j] + [s] + pos[j:], names[:j] + ["zero"] + names[j:]
+            else:                                   # two non-zero operators multiplying to zero at one site
+                a, b = rng.choice(F.zero_pairs)
+                pos, names = pos[:j] + [s, s] + pos[j:], names[:j] + [a, b] + names[j:]
             pos, names = pos[:4], names[:4]
             if not onsite_zero(F, pos, names):
                 continue
@@ -425,8 +482,8 @@ def case_mpo(ctx, F, rng, nprng):
             mode = "plain"
     if mode == "zero-onsite":
         rng.shuffle(specs)
-    style = rng.choice(("real", "mixed"))
-    amps = [make_amp(rng, style) for _ in specs]
+    style = rng.choice(AMP_STYLES)
+    amps = make_amps(rng, style, len(specs))
     has_cplx_op = any(nm in F.cplx for _, names in specs for nm in names)
     if has_cplx_op and nterms > 1 and not any(isinstance(a, complex) for a in amps):
         if mode == "plain" and rng.random() < 0.2:
@@ -444,6 +501,8 @@ def case_mpo(ctx, F, rng, nprng):
     for a, (pos, names) in zip(amps, specs):
         if len(pos) == 1 and rng.random() < 0.3:
             terms.append(mps.Hterm(a, pos[0], F.named[names[0]]))       # documented short form (see tests)
+        elif not pos and rng.random() < 0.5:
+            terms.append(mps.Hterm(a) if rng.random() < 0.5 else mps.Hterm(amplitude=a))    # defaults: positions=(), operators=()
         else:
             seq = rng.choice((list, tuple))
             terms.append(mps.Hterm(a, seq(pos), seq(F.named[nm] for nm in names)))
@@ -458,16 +517,33 @@ def case_mpo(ctx, F, rng, nprng):
         Iarg, kw["N"] = [I1] * rng.choice((1, 2, N)), N
     if f_map is not None:
         kw["f_map"] = f_map
-    if rng.random() < 0.1:
+    r = rng.random()
+    exact = False
+    if r < 0.06:
         kw["opts_svd"] = {"tol": 1e-14}
-    wit = {"family": F.tag, "N": N, "mode": mode, "f_map": f_map, "I": ikind,
+    elif r < 0.20 or (style in ("wide", "zeros") and r < 0.45):
+        kw["opts_svd"], exact = rng.choice(({}, {"tol": 0})), True      # non-truncating
+    elif r < 0.25:
+        kw["opts_svd"] = None                                            # the default, spelled out
+    wit = {"family": F.tag, "N": N, "mode": mode, "f_map": f_map, "I": ikind, "amplitudes": style, "opts_svd": kw.get("opts_svd", "omitted"),
            "terms": [{"amplitude": a, "positions": p, "operators": nm} for a, (p, nm) in zip(amps, specs)]}
     sig = ("mpo", F.tag, N, mode, None if f_map is None else tuple(f_map), ikind,
            tuple((tuple(p), tuple(nm), type(a).__name__) for a, (p, nm) in zip(amps, specs)))
     count_flavour(ctx, F)
     ctx.count("mpo_mode:" + mode)
+    ctx.count("mpo_amp_style:" + style)
+    if exact:
+        ctx.count("mpo_nontruncating")
+    if any(a == 0 for a in amps):
+        ctx.count("mpo_zero_amplitude_cases")
+    if len(kw) == 0:
+        ctx.count("mpo_all_optional_omitted")
     for pos, names in specs:
         ctx.count("terms_total")
+        if not pos:
+            ctx.count("terms_identity")
+        if "zero" in names:
+            ctx.count("terms_zero_operator")
         if len(set(pos)) < len(pos):
             ctx.count("terms_repeated_sites")
         if any(a > b for a, b in zip(pos, pos[1:])):
@@ -518,18 +594,45 @@ def case_mpo(ctx, F, rng, nprng):
         return
     got = jw.mpo_matrix(O, [F.space] * N)
     key = "value:generate_mpo" + (":f_map" if f_map is not None else "") + (":multi-term" if nterms > 1 else ":single-term")
-    cmp_matrix(ctx, key, "generate_mpo", got, exp, TOL_MPO * max(scale, 1.0), wit)
+    if style in ("wide", "tiny", "huge", "zeros", "tiny-imag"):
+        key += ":amplitudes-" + style
+    cmp_matrix(ctx, key, "generate_mpo" + (":nontruncating" if exact else ""), got, exp, (TOL_MPO_EXACT if exact else TOL_MPO) * scale, wit)
     ctx.count("mpo_compared")
-    nz = bool(np.max(np.abs(exp)) > 1e-9)
+    nz = bool(np.max(np.abs(exp)) > 1e-9 * scale) if scale > 0 else False
     if nz:
         ctx.count("nonzero_references")
-    if F.fermionic:
-        if np.max(np.abs(exp - F.model(N, f_order, bosonic=True).sum_terms(tlist))) > 1e-7:
+    if F.fermionic and scale > 0:
+        if np.max(np.abs(exp - F.model(N, f_order, bosonic=True).sum_terms(tlist))) > 1e-7 * scale:
             ctx.count("mpo_string_sensitive")
             ctx.count("string_sensitive")
-        if f_map is not None and np.max(np.abs(exp - F.model(N).sum_terms(tlist))) > 1e-7:
+        if f_map is not None and np.max(np.abs(exp - F.model(N).sum_terms(tlist))) > 1e-7 * scale:
             ctx.count("mpo_fmap_sensitive")
     ctx.case(sig, nz, wit)
+
+
+def case_mpo_no_terms(ctx, F, rng, N):
+    """terms omitted / None / empty: the repository tests (test_generate_mpo_basic) pin the result to the identity MPO."""
+    import yastn.tn.mps as mps
+    form = rng.choice(("omitted", "None", "[]", "()"))
+    ikind = rng.choice(("mpo", "tensor", "list"))
+    kw = {}
+    if ikind == "mpo":
+        Iarg = F.I_mpo(N)
+    elif ikind == "tensor":
+        Iarg, kw["N"] = F.named["I"], N
+    else:
+        Iarg = [F.named["I"]] * N                   # N omitted: taken from the length of the list
+    if rng.random() < 0.3:
+        kw["f_map"] = list(range(N))[::-1]
+    args = {"omitted": (), "None": (None,), "[]": ([],), "()": ((),)}[form]
+    wit = {"family": F.tag, "N": N, "terms": form, "I": ikind, "kwargs": sorted(kw)}
+    count_flavour(ctx, F)
+    O = mps.generate_mpo(Iarg, *args, **kw)
+    got = jw.mpo_matrix(O, [F.space] * N) if len(O) == N else np.zeros((0, 0))
+    cmp_matrix(ctx, "value:generate_mpo:no-terms-identity", "generate_mpo", got, np.eye(F.d ** N), TOL_MPO, wit)
+    ctx.count("mpo_no_terms")
+    ctx.count("nonzero_references")
+    ctx.case(("mpo-no-terms", F.tag, N, form, ikind, tuple(sorted(kw))), True, wit)
 
 
 # ------------------------------------------------------------------ LaTeX generator
@@ -581,6 +684,15 @@ def case_latex(ctx, F, rng, nprng):
     t, mu, V, U, J, Dz, h = (rng.choice((1, -1)) * rng.uniform(0.2, 1.8) for _ in range(7))
     if rng.random() < 0.3:
         t = complex(t, rng.uniform(0.3, 1.0))
+    pstyle = "plain"
+    r = rng.random()
+    if r < 0.12:                               # a parameter that is exactly zero (int or float), as in the repository tests
+        pstyle = "zero"
+        z = rng.choice((0, 0.0))
+        t, mu, V, U, J, Dz, h = (z if rng.random() < 0.4 else x for x in (t, mu, V, U, J, Dz, h))
+    elif r < 0.22:                             # couplings spread over many orders of magnitude
+        pstyle = "wide"
+        t, mu, V, U, J, Dz, h = (x * 10.0 ** rng.choice((-9, -6, 0, 0, 6, 9)) for x in (t, mu, V, U, J, Dz, h))
     tm, mum = nprng.uniform(0.2, 1.5, (N, N)) * nprng.choice((-1, 1), (N, N)), nprng.uniform(0.2, 1.5, N)
     P = {"t": t, "mu": mu, "V": V, "U": U, "J": J, "Dz": Dz, "h": h, "tm": tm, "mum": mum, "sites": sites, "NN": NN}
     templates = []
@@ -628,14 +740,28 @@ def case_latex(ctx, F, rng, nprng):
     none_params = tname.startswith("literal") and rng.random() < 0.25
     wit = {"family": F.tag, "N": N, "template": tname, "H_str": H_str, "map": mapkind, "perm": perm,
            "sites": sites, "NN": NN, "parameters": {k: P[k] for k in ("t", "mu", "V", "U", "J", "Dz", "h")}}
-    sig = ("latex", F.tag, N, tname, mapkind, tuple(perm), tuple(map(repr, sites)), tuple(map(repr, NN)), none_params)
+    sig = ("latex", F.tag, N, tname, mapkind, tuple(perm), tuple(map(repr, sites)), tuple(map(repr, NN)), none_params, pstyle)
     count_flavour(ctx, F)
     ctx.count("latex_template:" + tname)
     gen_kw = {}
     if mp is not None:
         gen_kw["map"] = dict(mp)
+    ctor = "default"
+    r = rng.random()
+    if not none_params and r < 0.25:           # `parameters` of the constructor = defaults of mpo_from_latex; call-time values win
+        ctor = rng.choice(("ctor-all", "ctor-all-empty-call", "ctor-overridden"))
+        gen_kw["parameters"] = dict(P) if ctor != "ctor-overridden" else {**P, "t": 123.0, "mu": -7.0, "J": 55.0, "V": 9.0}
+    ctx.count("latex_ctor:" + ctor)
+    ctx.count("latex_params:" + pstyle)
+    wit["ctor"], wit["param_style"] = ctor, pstyle
     gen = mps.Generator(N, F.ops, **gen_kw)
-    if none_params:
+    if ctor == "ctor-all":
+        H = gen.mpo_from_latex(H_str)
+    elif ctor == "ctor-all-empty-call":
+        H = gen.mpo_from_latex(H_str, {})
+    elif ctor == "ctor-overridden":
+        H = gen.mpo_from_latex(H_str, dict(P))
+    elif none_params:
         ctx.count("latex_parameters_omitted")
         try:
             H = gen.mpo_from_latex(H_str)
@@ -657,12 +783,13 @@ def case_latex(ctx, F, rng, nprng):
     exp = M.sum_terms(dense_terms)
     scale = sum(abs(a) * float(np.prod([F.opnorm[nm] for nm, _ in fs])) for a, fs in tlist)
     got = jw.mpo_matrix(H, [F.space] * N)
-    cmp_matrix(ctx, "value:mpo_from_latex", "mpo_from_latex", got, exp, TOL_MPO * max(scale, 1.0), wit)
+    cmp_matrix(ctx, "value:mpo_from_latex" + ("" if pstyle == "plain" else ":parameters-" + pstyle) + ("" if ctor == "default" else ":" + ctor),
+               "mpo_from_latex", got, exp, TOL_MPO * scale, wit)
     ctx.count("latex_compared")
-    nz = bool(np.max(np.abs(exp)) > 1e-9)
+    nz = bool(scale > 0 and np.max(np.abs(exp)) > 1e-9 * scale)
     if nz:
         ctx.count("nonzero_references")
-    if F.fermionic and np.max(np.abs(exp - F.model(N, bosonic=True).sum_terms(dense_terms))) > 1e-7:
+    if F.fermionic and scale > 0 and np.max(np.abs(exp - F.model(N, bosonic=True).sum_terms(dense_terms))) > 1e-7 * scale:
         ctx.count("string_sensitive")
         ctx.count("latex_string_sensitive")
     ctx.case(sig, nz, wit)
@@ -709,10 +836,12 @@ def case_m1(ctx, F, rng, nprng):
     import yastn
     import yastn.tn.mps as mps
     N = draw_N(rng, F.d, 4096 if ctx.tier == "thorough" else 1024, 7 if ctx.tier == "thorough" else 6)
-    base = rng.choice(F.weighted)
+    base = rng.choice(F.weighted_z)
     ntot = F.loc[base][1]
     form = rng.choice(("tensor",) * 3 + ("dict",) * 4 + ("dict-mixed" if F.charged else "dict",))
     smode = rng.choice(("none", "none", "int", "list") if form == "tensor" else ("none", "none", "none", "list", "list", "int"))
+    if rng.random() < 0.06:
+        smode = "empty"                       # falsy: sites=() / [] , or an empty operator dict -> nothing to measure, {} returned
     count_flavour(ctx, F)
     bra, bv, ket, kv, scale, wst = bra_ket(ctx, F, N, ntot, rng)
     wit = {"family": F.tag, "N": N, "op": base, "form": form, "sites": smode, **wst}
@@ -736,8 +865,16 @@ def case_m1(ctx, F, rng, nprng):
     if smode == "none":
         sites, want = None, sorted(loc)
     elif smode == "int":
-        s = rng.choice(sorted(loc))
+        s = 0 if (0 in loc and rng.random() < 0.4) else rng.choice(sorted(loc))     # site 0 is falsy but is a site, not "None"
         sites, want = s, [s]
+        if s == 0:
+            ctx.count("m1_site0_int")
+    elif smode == "empty":
+        if form == "dict" and rng.random() < 0.4:
+            O, loc, sites, want = {}, {}, rng.choice((None, [0, 1])), []
+        else:
+            sites, want = rng.choice(((), [])), []
+        ctx.count("m1_sites_empty")
     elif form == "dict" and rng.random() < 0.7:
         # an unsorted list (repeats allowed) overlapping the dict: the dict holds extra keys and the list extra sites
         sites = rng.sample(sorted(loc), rng.randint(1, len(loc))) + [rng.randrange(N + 2) for _ in range(rng.randint(0, 2))]
@@ -750,7 +887,7 @@ def case_m1(ctx, F, rng, nprng):
         want = sorted(set(sites) & set(range(N)) & set(loc))
     wit["sites_arg"] = sites
     vkey = "value:measure_1site"
-    if form == "dict":
+    if form == "dict" and O:
         wit["dict_insertion_order"] = list(O)
         wit["dict_operators"] = {k: loc[k][3] for k in O}
         ctx.count("m1_dict_cases")
@@ -780,7 +917,7 @@ def case_m1(ctx, F, rng, nprng):
         return
     if sorted(res) != want:
         ctx.violation("keys:measure_1site", f"sites returned {sorted(res)} expected {want}", wit)
-    nz = False
+    nz = smode == "empty"
     for s in want:
         if s not in res:
             continue
@@ -820,7 +957,7 @@ def case_m2(ctx, F, rng, nprng):
     import yastn
     import yastn.tn.mps as mps
     N = draw_N(rng, F.d, 4096 if ctx.tier == "thorough" else 1024, 7 if ctx.tier == "thorough" else 6)
-    a, b = rng.choice(F.weighted), rng.choice(F.weighted)
+    a, b = rng.choice(F.weighted_z), rng.choice(F.weighted_z)
     if F.charged and rng.random() < 0.5:
         a, b = rng.choice(F.charged), rng.choice(F.charged)
     ntot = G.add(F.sym, [F.loc[a][1], F.loc[b][1]])
@@ -841,6 +978,34 @@ def case_m2(ctx, F, rng, nprng):
             ctx.count("m2_dict_unsorted")
     bk = rng.choice(("pattern", "pattern", "pairs", "pairs", "single", "default"))
     single = False
+    r = rng.random()
+    if r < 0.05:                              # falsy containers: no pairs requested / no operators given -> {} expected
+        which = "pairs" if r < 0.03 else "dict"
+        wit = {"family": F.tag, "N": N, "O": a, "P": b, "empty": which, **wst}
+        ctx.count("m2_empty_" + which)
+        try:
+            if which == "pairs":
+                res = mps.measure_2site(bra, O, P, ket, bonds=rng.choice(([], ())))
+            elif rng.random() < 0.5:
+                res = mps.measure_2site(bra, {}, P, ket, bonds=rng.choice(("a", "<", [(0, 1)])))
+            else:
+                res = mps.measure_2site(bra, O, {}, ket, bonds=rng.choice(("a", "<", [(0, 1)])))
+        except IndexError as e:
+            if which != "pairs":
+                raise
+            ctx.violation(K_M2_EMPTY_PAIRS, f"measure_2site with an empty sequence of pairs raises IndexError: {e}", wit)
+            ctx.case(("m2-empty", F.tag, which), True, wit)
+            return
+        except StopIteration as e:
+            if which != "dict":
+                raise
+            ctx.violation(K_M2_EMPTY_DICT, f"measure_2site with an empty operator dict raises StopIteration {e}", wit)
+            ctx.case(("m2-empty", F.tag, which), True, wit)
+            return
+        if not (isinstance(res, dict) and len(res) == 0):
+            ctx.violation("value:measure_2site:empty-request", f"nothing requested but got {res!r}", wit)
+        ctx.case(("m2-empty", F.tag, which), True, wit)
+        return
     if bk == "pattern":
         r1, r2 = rng.randint(1, N - 1) * rng.choice((1, -1)), rng.randint(1, N - 1) * rng.choice((1, -1))
         bonds = rng.choice(("a", "<", "=", ">", "<=", ">=", "<>", "<=>", f"r{r1}", f"r{r1}", f"r{r1}p", f"r{r1}p", f"pr{r1}",
@@ -922,13 +1087,15 @@ def case_mn(ctx, F, rng, nprng):
     N = draw_N(rng, F.d, 4096 if ctx.tier == "thorough" else 1024, 7 if ctx.tier == "thorough" else 6)
     for _ in range(100):
         k = rng.choice((1, 2, 2, 3, 3, 4, 4, 5, 6))
+        if rng.random() < 0.04:
+            k = 0                              # no operators, sites=(): the product over nothing is the identity -> <bra|ket>
         sites = [rng.randrange(N) for _ in range(k)]
         style = rng.choice(("free", "repeat", "desc", "free"))
         if style == "repeat" and k >= 2:
             sites[rng.randrange(1, k)] = sites[0]
         if style == "desc":
             sites.sort(reverse=True)
-        names = [rng.choice(F.weighted) for _ in range(k)]
+        names = [rng.choice(F.weighted_z) for _ in range(k)]
         if not onsite_zero(F, sites, names) or rng.random() < 0.05:
             break
     ntot = F.charge(names)
@@ -936,10 +1103,23 @@ def case_mn(ctx, F, rng, nprng):
     bra, bv, ket, kv, scale, wst = bra_ket(ctx, F, N, ntot, rng)
     seq = rng.choice((list, tuple))
     wit = {"family": F.tag, "N": N, "operators": names, "sites": sites, **wst}
+    if k == 0:
+        ctx.count("mn_no_operators")
+    if k > 0 and rng.random() < 0.03:          # `sites` has a default (None) but is required: documented rejection
+        import yastn
+        try:
+            mps.measure_nsite(bra, *[F.named[nm] for nm in names], ket=ket)
+        except yastn.YastnError:
+            ctx.count("mn_sites_omitted_rejected")
+            ctx.case(("mn-sites-omitted", F.tag, k), True, wit)
+            return
+        ctx.violation("missing-reject:measure_nsite:sites-omitted", "operators without sites were accepted", wit)
+        ctx.case(("mn-sites-omitted", F.tag, k), True, wit)
+        return
     val = mps.measure_nsite(bra, *[F.named[nm] for nm in names], ket=ket, sites=seq(sites))
     fs = F.factors(names, sites)
     exp = F.model(N).expect(bv, fs, kv)
-    nrm = float(np.prod([F.opnorm[nm] for nm in names]))
+    nrm = float(np.prod([F.opnorm[nm] for nm in names])) if names else 1.0
     cmp_value(ctx, "value:measure_nsite", "measure_nsite", val, exp, TOL_VAL * scale * nrm, wit)
     ctx.count("mn_values")
     if len(set(sites)) < len(sites):
@@ -1064,16 +1244,34 @@ def case_sample(ctx, F, rng, nprng):
         yarg, dd, bk = make_basis()
         projectors, dense = yarg, [dd] * N
     number = rng.randint(1, 5)
+    call = rng.choice(("full",) * 7 + ("defaults", "defaults", "no-probabilities", "number=0"))
     F.cfg.backend.random_seed(rng.randrange(2 ** 31))
-    wit = {"family": F.tag, "N": N, "state": how, "basis": bk, "number": number}
-    sig = ("sample", F.tag, N, bk, number, how)
-    out = mps.sample(psi, projectors, number=number, return_probabilities=True)
-    if not (isinstance(out, tuple) and len(out) == 2):
-        ctx.violation("return-type:sample", "return_probabilities=True must return (samples, probabilities)", wit)
-        ctx.case(sig, True, wit)
-        return
-    samples, probs = out
-    samples = np.asarray(samples)
+    wit = {"family": F.tag, "N": N, "state": how, "basis": bk, "number": number, "call": call}
+    sig = ("sample", F.tag, N, bk, number, how, call)
+    ctx.count("sample_call:" + call)
+    probs = None
+    if call == "defaults":                     # number=1, return_probabilities=False
+        out, number = mps.sample(psi, projectors), 1
+    elif call == "no-probabilities":
+        out = mps.sample(psi, projectors, number) if rng.random() < 0.5 else mps.sample(psi, projectors, number=number, return_probabilities=False)
+    elif call == "number=0":
+        out, number = mps.sample(psi, projectors, number=0, return_probabilities=True), 0
+    else:
+        out = mps.sample(psi, projectors, number=number, return_probabilities=True)
+    if call in ("defaults", "no-probabilities"):
+        if isinstance(out, tuple):
+            ctx.violation("return-type:sample", "return_probabilities=False (the default) must return only the samples", wit)
+            ctx.case(sig, True, wit)
+            return
+        samples = np.asarray(out)
+        probs = [None] * len(samples)
+    else:
+        if not (isinstance(out, tuple) and len(out) == 2):
+            ctx.violation("return-type:sample", "return_probabilities=True must return (samples, probabilities)", wit)
+            ctx.case(sig, True, wit)
+            return
+        samples, probs = out
+        samples = np.asarray(samples)
     if samples.shape != (number, N) or len(probs) != number:
         ctx.violation("shape:sample", f"samples shape {samples.shape}, {len(probs)} probabilities; expected ({number},{N})", wit)
         ctx.case(sig, True, wit)
@@ -1093,6 +1291,12 @@ def case_sample(ctx, F, rng, nprng):
         if not ok:
             continue
         born = float(np.vdot(v, v).real) / nrm2
+        if p is None:          # only the configuration is returned: it must be one the dense state can produce at all
+            ctx.count("sample_configs_checked")
+            if born < 1e-13 * cond:
+                ctx.violation("value:sample:impossible-configuration", f"sampled configuration has Born probability {born:.3e}",
+                              {**wit, "sample": srow.tolist()})
+            continue
         cmp_value(ctx, "value:sample:probability", "sample", p, born, TOL_PROB * cond, {**wit, "sample": srow.tolist()})
         ctx.count("sample_probs")
         if born > 1e-9:
